@@ -1,307 +1,14 @@
 /-
-Driver operations for the chain model (C01, C03, C05, C11, …). Core Lean only.
+The chain driver with every cross-check switched on (Chains.Add and the header queries). The model drivers proper are
+Driver/Mains/Chain.lean (write side: C01, C03, C05, C11, C15) and Driver/Mains/ChainQ.lean (read side: C02, C04, C08, C13).
 -/
-import BHS.Model.Header
-import BHS.Spec.BestChain
-import BHS.Model.Query
-import BHS.Model.Interleave
-import BHS.Model.RepoM
-import BHS.Gen.ChainSvc
-import BHS.Model.QueryM
-import BHS.Gen.HeaderSvc
+import Driver.Ops.ChainAddGen
+import Driver.Ops.ChainQGen
 
 namespace Driver.Ops.Chain
-open BHS BHS.Chain BHS.Header
 
-structure S where
-  store : Store String := [genesisRow]
-  forbidden : List String := []
-  threads : List (Thread String) := []
+def fullChecks : Checks := { queryChecks with add := genMismatch }
 
-def cfgOf (st : S) : Cfg String := { hashOf := blockHash, forbidden := st.forbidden }
-
-def stName : St → String
-  | .lc => "LONGEST_CHAIN"
-  | .stale => "STALE"
-  | .orphan => "ORPHAN"
-
-def rowStr (r : Row String) : String :=
-  s!"{r.id},{r.hash},{r.prev},{r.merkle},{r.height},{r.version},{r.time},{r.bits},{r.nonce},{r.work},{r.cum},{stName r.st}"
-
-def sortStrs (l : List String) : List String := (l.toArray.qsort (· < ·)).toList
-
-def writeStr : Write String → String
-  | .setState hs st => s!"W setstate:{stName st}:{",".intercalate (sortStrs hs)}"
-  | .insert r => s!"W insert:{r.hash}"
-
-def outcomeStr : Outcome String → String
-  | .stored r => s!"stored {rowStr r}"
-  | .duplicate => "duplicate"
-  | .rejected => "rejected"
-  | .creationFail => "error:HeaderCreationFail"
-
-def verdictName : Verdict → String
-  | .confirmed => "CONFIRMED"
-  | .unable => "UNABLE_TO_VERIFY"
-  | .invalid => "INVALID"
-
-def parseItem (w : String) : Option (String × Int) :=
-  match w.splitOn ":" with
-  | [root, h] => (fun k => (root, k)) <$> h.toInt?
-  | _ => none
-
-def hashesStr (l : List (Row String)) : String := ",".intercalate (l.map (·.hash))
-
-def optKey (k : String) : Option String := if k = "-" then none else some k
-
-def parseHeader (hex : String) : Option (Src String) := (BHS.Sha256.ofHex hex).bind parse
-
-/-- the repository call a thread is about to make -/
-def callName : Pc String → String
-  | .start => "R byhash"
-  | .readParent => "R byhash"
-  | .readAtHeight _ => "R byheight"
-  | .readTip _ => "R tip"
-  | .readStale _ => "R staleback"
-  | .readConc _ _ => "R lcfrom"
-  | .writes _ (w :: _) => writeStr w
-  | .writes _ [] => "none"
-  | .done _ => "done"
-
-def writeEq : Write String → Write String → Bool
-  | .setState a s, .setState b t => a == b && s == t
-  | .insert a, .insert b => a == b
-  | _, _ => false
-
-def outcomeEq : Outcome String → Outcome String → Bool
-  | .stored a, .stored b => a == b
-  | .duplicate, .duplicate => true
-  | .rejected, .rejected => true
-  | .creationFail, .creationFail => true
-  | _, _ => false
-
-def writesEq : List (Write String) → List (Write String) → Bool
-  | [], [] => true
-  | a :: l, b :: m => writeEq a b && writesEq l m
-  | _, _ => false
-
-/-- run the REGENERATED `Add` (BHS/Gen/ChainSvc.lean, translated from the Go source on every run) on the same store and
-    compare everything observable with the hand model: `none` = they agree (as Props/ChainSvc.lean proves), otherwise the
-    text of the difference. `fail = some k`: the write of index `k` returns an error. -/
-def genMismatch (cfg : Cfg String) (s : Store String) (x : Src String) (fail : Option Nat)
-    (o : Option (Outcome String)) (ws : List (Write String)) (s' : Store String) : Option String :=
-  match observe s fail (BHS.Gen.ChainSvc.Add cfg x) with
-  | .error f => some s!"err:gen-mismatch generated Add panics: {repr f}"
-  | .ok (go, gws, gs) =>
-    let oOk := match o, go with
-      | some a, some b => outcomeEq a b
-      | none, _ => true
-      | _, none => false
-    if !oOk then some s!"err:gen-mismatch outcome generated={(go.map outcomeStr).getD "other-error"}"
-    else if !writesEq ws gws then some s!"err:gen-mismatch writes generated={" | ".intercalate (gws.map writeStr)}"
-    else if gs != s' then some s!"err:gen-mismatch store generated={";".intercalate (gs.map rowStr)}"
-    else none
-
-/-! ### the REGENERATED query side (BHS/Gen/HeaderSvc.lean, translated from service/header_service.go and the repository
-and SQL layers below it on every run), evaluated next to the hand model on every read op: `none` = they agree (as
-Props/HeaderSvcGen.lean proves), otherwise the text of the difference. The zero hash of the protocol is `zeroHash`. -/
-section GenQuery
-open BHS.QueryM (runQ)
-open BHS.Gen.HeaderSvc
-
-/-- the loop budget: above every stored height (the hypothesis of the refinement theorems) -/
-def qFuel (s : Store String) : Nat := s.foldl (fun m r => max m r.height) 0 + 1
-
-local instance zeroHashDefault : Inhabited String := ⟨zeroHash⟩
-
-/-- one protocol line: no line breaks, bounded length -/
-def oneLine (t : String) : String :=
-  let u := String.ofList (t.toList.map fun c => if c == '\n' then ' ' else c)
-  if u.length > 600 then (u.take 600).toString ++ "…" else u
-
-def genDiff {α : Type} [Repr α] (what : String) (r : Except QueryM.Fault α) (ok : α → Bool) : Option String :=
-  match r with
-  | .error f => some s!"err:gen-mismatch {what}: the generated code faults: {repr f}"
-  | .ok a => if ok a then none else some s!"err:gen-mismatch {what}: generated={oneLine (toString (repr a))}"
-
-def errName (e : Option QueryM.Err) : String := ((e.bind QueryM.Err.bhsName).getD (match e with
-  | some (.msg t) => t | _ => "-"))
-
-def genLocatorDiff (s : Store String) : Option String :=
-  genDiff "locator" (runQ s (qFuel s) HeaderService_LatestHeaderLocator) (· == locator s)
-
-def genGetHeadersDiff (s : Store String) (loc : List String) (stop : String) : Option String :=
-  genDiff "getheaders" (runQ s (qFuel s) (HeaderService_LocateHeadersGetHeaders loc stop)) fun res =>
-    match getHeaders s zeroHash loc stop with
-    | .ok rows => res.2.isNone && res.1 == rows.map (fun r => some (srcOf r))
-    | .error .noLocators => errName res.2 == "no locators provided"
-    | .error .stopLower => errName res.2 == "hashStop is lower than first valid height"
-
-def genByHeightDiff (s : Store String) (lo cnt : Int) : Option String :=
-  genDiff "byheight" (runQ s (qFuel s) (HeaderService_GetHeadersByHeight lo cnt)) fun res =>
-    res.2.isNone && res.1 == (byHeightRange s lo (lo + cnt - 1)).map some
-
-def genTipsDiff (s : Store String) : Option String :=
-  genDiff "tips" (runQ s (qFuel s) HeaderService_GetTips) fun res => res.2.isNone && res.1 == (allTips s).map some
-
-def genTipDiff (s : Store String) : Option String :=
-  genDiff "tip" (runQ s (qFuel s) HeaderService_GetTip) (· == getTip s)
-
-def genStateDiff (s : Store String) (h : String) : Option String :=
-  genDiff "state" (runQ s (qFuel s) (HeaderService_GetHeaderByHash h)) fun res =>
-    match byHash s h with
-    | some r => res.2.isNone && res.1 == some r
-    | none => res.1.isNone && errName res.2 == "ErrHeaderNotFound"
-
-def genAncestorsDiff (s : Store String) (h a : String) : Option String :=
-  genDiff "ancestors" (runQ s (qFuel s) (HeaderService_GetHeaderAncestorsByHash h a)) fun res =>
-    match ancestors s h a with
-    | .ok rows => res.2.isNone && res.1 == rows.map some
-    | .error .notFound => errName res.2 == "ErrHeaderWithGivenHashes"
-    | .error .ancestorHigher => errName res.2 == "ErrAncestorHashHigher"
-    | .error .notSameChain => errName res.2 == "ErrHeadersNotPartOfTheSameChain"
-
-def genCommonDiff (s : Store String) (hs : List String) : Option String :=
-  genDiff "common" (runQ s (qFuel s) (HeaderService_GetCommonAncestor hs)) fun res =>
-    match commonAncestor s hs with
-    | .found r => res.2.isNone && res.1 == some r
-    | .notFound => res.1.isNone && (errName res.2 == "ErrAncestorNotFound" || errName res.2 == "ErrHeaderNotFound")
-    | .nilResult => res.1.isNone && (errName res.2 == "ErrAncestorNotFound" || errName res.2 == "ErrHeaderNotFound")
-    | .panicEmpty => res.1.isNone && errName res.2 == "ErrCommonAncestorEmptyList"
-
-/-- the hand model's answer, unless the generated code disagrees -/
-def genCheck (d : Option String) (out : String) : String :=
-  match d with
-  | some x => x
-  | none => out
-
-end GenQuery
-
-def parseSt : String → Option St
-  | "LONGEST_CHAIN" => some .lc
-  | "STALE" => some .stale
-  | "ORPHAN" => some .orphan
-  | _ => none
-
-/-- one row in the `dump` format -/
-def parseRow (w : String) : Option (Row String) :=
-  match w.splitOn "," with
-  | [id, hash, prev, merkle, height, version, time, bits, nonce, work, cum, st] => do
-    let id ← id.toNat?
-    let height ← height.toNat?
-    let version ← version.toInt?
-    let time ← time.toNat?
-    let bits ← bits.toNat?
-    let nonce ← nonce.toNat?
-    let work ← work.toNat?
-    let cum ← cum.toNat?
-    let st ← parseSt st
-    pure { id, hash, prev, merkle, height, version, time, bits, nonce, work, cum, st }
-  | _ => none
-
-def handle (st : S) : List String → Option (S × String)
-  | ["reset"] => some ({ st with store := [genesisRow] }, "ok")
-  -- the table of the implementation, as dumped: the runners of the READ properties (C02, C04, C08, C13) put the model on
-  -- exactly the table the queries run on, so that they judge the queries and not how the table came about (C01)
-  | ["load", rows] =>
-    match (rows.splitOn ";").mapM parseRow with
-    | some rs => some ({ st with store := rs }, "ok")
-    | none => some (st, "bad-rows")
-  | "forbid" :: hs => some ({ st with forbidden := hs }, "ok")
-  | ["add", hex] =>
-    match parseHeader hex with
-    | none => some (st, "bad-header")
-    | some x =>
-      let p := plan (cfgOf st) st.store x
-      let s' := applyWrites st.store p.2
-      match genMismatch (cfgOf st) st.store x none (some p.1) p.2 s' with
-      | some diff => some ({ st with store := s' }, diff)
-      | none => some ({ st with store := s' }, " | ".intercalate (outcomeStr p.1 :: p.2.map writeStr))
-  | ["crash", k, hex] =>
-    match parseHeader hex, k.toNat? with
-    | some x, some k =>
-      let p := plan (cfgOf st) st.store x
-      let s' := applyWrites st.store (p.2.take k)
-      -- the generated Add with write k failing stops by itself at the same prefix
-      match genMismatch (cfgOf st) st.store x (some k) (if k < p.2.length then none else some p.1) (p.2.take k) s' with
-      | some diff => some ({ st with store := s' }, diff)
-      | none => some ({ st with store := s' }, s!"crashed {min k p.2.length}")
-    | _, _ => some (st, "bad-header")
-  | ["restart"] => some ({ st with store := insertRow st.store genesisRow }, "ok")
-  | ["hashof", hex] =>
-    match parseHeader hex with
-    | none => some (st, "bad-header")
-    | some x => some (st, blockHash x)
-  | ["tip"] => some (st, genCheck (genTipDiff st.store) (match getTip st.store with | some r => rowStr r | none => "none"))
-  | ["state", h] => some (st, genCheck (genStateDiff st.store h)
-      (match byHash st.store h with | some r => rowStr r | none => "not-found"))
-  | ["dump"] => some (st, ";".intercalate (st.store.map rowStr))
-  | ["inv"] =>
-    let c := cfgOf st
-    some (st, s!"wf={decide (WF c st.store)} lcinv={decide (LcInv st.store)} canon={decide (Canon st.store)} struct={decide (StructValid st.store)}")
-  | "verify" :: excess :: items =>
-    match excess.toInt?, items.mapM parseItem with
-    | some e, some req =>
-      match verify st.store e req with
-      | none => some (st, "err:tipheight")
-      | some res =>
-        let agg := aggregate (res.map (fun x => x.2.2.1))
-        some (st, verdictName agg ++ ";" ++ ";".intercalate (res.map fun (root, h, v, hash) =>
-          s!"{root}:{h}:{verdictName v}:{hash.getD "-"}"))
-    | _, _ => some (st, "bad-args")
-  | ["roots", n, key] =>
-    match n.toNat? with
-    | none => some (st, "bad-args")
-    | some n =>
-      match page st.store n (optKey key) with
-      | .error .notFound => some (st, "err:notfound")
-      | .error .notLc => some (st, "err:conflict")
-      | .error .noTip => some (st, "err:notip")
-      | .ok (rows, last) => some (st, ",".intercalate (rows.map fun r => s!"{r.merkle}:{r.height}") ++ "|" ++ last.getD "-")
-  | ["locator"] => some (st, genCheck (genLocatorDiff st.store) (",".intercalate (locator st.store)))
-  | "getheaders" :: stop :: loc =>
-    match getHeaders st.store zeroHash loc stop with
-    | .error .noLocators => some (st, genCheck (genGetHeadersDiff st.store loc stop) "err:nolocators")
-    | .error .stopLower => some (st, genCheck (genGetHeadersDiff st.store loc stop) "err:stoplower")
-    | .ok rows => some (st, genCheck (genGetHeadersDiff st.store loc stop) (hashesStr rows))
-  | ["byheight", lo, cnt] =>
-    match lo.toInt?, cnt.toInt? with
-    | some lo, some cnt => some (st, genCheck (genByHeightDiff st.store lo cnt)
-        (",".intercalate (sortStrs ((byHeightRange st.store lo (lo + cnt - 1)).map (·.hash)))))
-    | _, _ => some (st, "bad-args")
-  | ["tips"] => some (st, genCheck (genTipsDiff st.store) (",".intercalate (sortStrs ((allTips st.store).map (·.hash)))))
-  | ["ancestors", h, a] =>
-    match ancestors st.store h a with
-    | .error .notFound => some (st, genCheck (genAncestorsDiff st.store h a) "err:notfound")
-    | .error .ancestorHigher => some (st, genCheck (genAncestorsDiff st.store h a) "err:ancestorhigher")
-    | .error .notSameChain => some (st, genCheck (genAncestorsDiff st.store h a) "err:notsamechain")
-    | .ok rows => some (st, genCheck (genAncestorsDiff st.store h a) ("ok:" ++ hashesStr rows))
-  | "common" :: hs =>
-    match commonAncestor st.store hs with
-    | .found r => some (st, genCheck (genCommonDiff st.store hs) ("found:" ++ r.hash))
-    | .notFound => some (st, genCheck (genCommonDiff st.store hs) "err:notfound")
-    -- after the repairs 397583f / 15c8125 the service answers these two outcomes with structured 400 errors
-    -- (ErrAncestorNotFound / ErrCommonAncestorEmptyList); the constructor names are kept from the original code
-    | .nilResult => some (st, genCheck (genCommonDiff st.store hs) "err:notfound")
-    | .panicEmpty => some (st, genCheck (genCommonDiff st.store hs) "err:empty")
-  | "ilv" :: "init" :: hexes =>
-    match hexes.mapM parseHeader with
-    | none => some (st, "bad-header")
-    | some xs => some ({ st with threads := xs.map (fun x => { x := x, pc := .start }) }, "ok")
-  | ["ilv", "step", i] =>
-    match i.toNat? with
-    | none => some (st, "bad-args")
-    | some i =>
-      match st.threads[i]? with
-      | none => some (st, "no-thread")
-      | some t =>
-        let call := callName t.pc
-        let p := stepThread (cfgOf st) st.store t
-        let out := match p.2.pc with
-          | .done o => call ++ " => " ++ outcomeStr o
-          | _ => call
-        some ({ st with store := p.1, threads := st.threads.set i p.2 }, out)
-  | ["count"] => some (st, toString st.store.length)
-  | _ => none
+def handle (st : S) : List String → Option (S × String) := handleWith fullChecks st
 
 end Driver.Ops.Chain
